@@ -912,6 +912,8 @@ _R = 'aggregates/rolling_stats.py'
 _U = 'aggregates/utils.py'
 _T = 'aggregates/retrieval.py'
 VARIANTS = [
+    OK('topk-result-through-a-local-state', 'aggregates/retrieval.py',
+       "  def result(self):\n    result = [self._state[metric].result() for metric in self._metrics]", "  def result(self):\n    state = self._state\n    result = [state[metric].result() for metric in self._metrics]"),
     B('topk-result-short-cuts-an-untouched-state', 'aggregates/retrieval.py',
       "  def result(self):\n    result = [self._state[metric].result() for metric in self._metrics]", "  def result(self):\n    if not self._state:\n      return {}\n    result = [self._state[metric].result() for metric in self._metrics]", 'R-C11-17'),
     B('revert-regression-sums-updated-in-place', 'aggregates/rolling_stats.py',
